@@ -483,12 +483,24 @@ func decode(op string, p program, buf []byte) (s reflect.Value, err error, fails
 		}
 	case "unmarshalArray":
 		arr := reflect.New(reflect.SliceOf(p.t))
-		panicked, msg, _ = vk.Guard(func() { err = codec.UnmarshalArray([][]byte{buf}, arr.Interface()) })
+		// a batch of two copies of the message: two elements, equal, and no pointer of the one is a pointer
+		// of the other (each element is decoded on its own)
+		panicked, msg, _ = vk.Guard(func() { err = codec.UnmarshalArray([][]byte{buf, append([]byte{}, buf...)}, arr.Interface()) })
 		if !panicked && err == nil {
-			if arr.Elem().Len() != 1 {
-				return s, nil, []failure{{op, -2, "wrong-type", fmt.Sprintf("UnmarshalArray of one message produced %d elements", arr.Elem().Len())}}
+			if arr.Elem().Len() != 2 {
+				return s, nil, []failure{{op, -2, "wrong-type", fmt.Sprintf("UnmarshalArray of two messages produced %d elements", arr.Elem().Len())}}
 			}
-			s = arr.Elem().Index(0)
+			e0, e1 := arr.Elem().Index(0), arr.Elem().Index(1)
+			for _, path := range p.paths {
+				f0, f1 := e0.FieldByIndex(path), e1.FieldByIndex(path)
+				if f0.Kind() == reflect.Ptr && !f0.IsNil() && f0.Pointer() == f1.Pointer() {
+					return s, nil, []failure{{op, -2, "elements-share-storage", fmt.Sprintf("UnmarshalArray of two messages: field %v of both elements is the same pointer", path)}}
+				}
+			}
+			if !reflect.DeepEqual(e0.Interface(), e1.Interface()) {
+				return s, nil, []failure{{op, -2, "elements-differ", fmt.Sprintf("UnmarshalArray of two copies of one message: %+v and %+v", e0.Interface(), e1.Interface())}}
+			}
+			s = e1
 		}
 	case "unmarshalAs-pointer":
 		var res any
